@@ -32,6 +32,7 @@ HOSTILE_ZONES = [
     "Zone[1]", "a:b", "what?", "star*", "back\\slash", "'quoted'", "x" * 40, "Very long zone name that exceeds the limit", "Very long zone name that exceeds the limIT",
     "Very long zone name that exceeds the limit!", "Überhitzer – Stufe 2", "tab\tname", "Sheet", "  padded  ", "UPPER", "upper", "a/b:c", "History",
     "what*", "what_", "star?", "a:b?", "a_b_", "'", "''", "?", "x" * 30 + "'", "[]", "Summary",
+    "Hydrotreater Reactor Loop A (2) revamp", "Unit (2)", "Plant (2)",
 ]
 ODD_LABELS = ["2024", "007", "1e3", "NA", "nan", "None", "Area.1", " x ", "3.5", "TRUE", "N-A"]
 
@@ -488,6 +489,14 @@ class C16(World):
                     lb = args.choice(labels + [f"{z} - Direct Integration (Real)" for z in LONG_FAMILY[:2]])
                     labels += [lb] * args.choice([9, 11, 14]) + [lb.upper()]
                     args.shuffle(labels)
+                if args.random() < 0.35:
+                    # literal labels that look like (or truncate to) a name the allocator generates for a collision: "stem (2)"
+                    lb = args.choice(labels)
+                    k_ = args.choice([2, 2, 3, 10])
+                    lits = [lb[: 31 - len(f" ({k_})")] + f" ({k_})", lb[: 31 - len(f" ({k_})")] + f" ({k_}) revamp", lb + f" ({k_})"]
+                    for lit in args.sample(lits, args.choice([1, 2])):
+                        labels.insert(args.randrange(len(labels) + 1), lit)
+                    labels += [lb] * args.choice([1, 2, 3])
                 st = dict(op="alloc", labels=labels)
             elif op == "clock":
                 st = dict(op="clock", dt=args.choice([0, 0, 1, 61, 86400, -1, -7200]))
